@@ -503,6 +503,38 @@ def gen_program(rng) -> list:
     return steps
 
 
+def sweep_program(byte_values) -> list:
+    """every given byte value inside a mailbox name, a Subject, a display name,
+    a MIME parameter value, a keyword position and a HEADER.FIELDS name; then
+    everything is listed and fetched"""
+    steps = []
+    n = [0]
+
+    def cmd(body: bytes) -> None:
+        n[0] += 1
+        steps.append(('send', b's%d ' % n[0] + body + b'\r\n'))
+    for c in byte_values:
+        ch = bytes([c])
+        name = b'm' + ch + b'x'
+        cmd(b'CREATE {%d+}\r\n' % len(name) + name)
+        msg = (b'Subject: a' + ch + b'b\r\nFrom: "n' + ch + b'n" <u@h>\r\n'
+               b'Content-Type: text/plain; name="p' + ch + b'q"\r\n'
+               b'Content-Disposition: attachment; filename=f' + ch + b'g\r\n\r\nbody ' + ch + b'\r\n')
+        cmd(b'APPEND INBOX {%d+}\r\n' % len(msg) + msg)
+    cmd(b'LIST "" *')
+    cmd(b'LSUB "" *')
+    cmd(b'SELECT INBOX')
+    cmd(b'FETCH 5:* (ENVELOPE BODYSTRUCTURE BODY)')
+    for c in byte_values:
+        ch = bytes([c])
+        name = b'm' + ch + b'x'
+        cmd(b'STATUS {%d+}\r\n' % len(name) + name + b' (MESSAGES MAILBOXID)')
+        hn = b'h' + ch + b'h'
+        cmd(b'FETCH 1 BODY.PEEK[HEADER.FIELDS ({%d+}\r\n' % len(hn) + hn + b')]')
+    cmd(b'LOGOUT')
+    return steps
+
+
 def gen_preauth(rng) -> list:
     """steps on a fresh, unauthenticated connection"""
     good = base64.b64encode(b'\x00testuser\x00testpass')
@@ -608,10 +640,19 @@ def section_live(ctx) -> None:
             return await asyncio.wait_for(run_program(env, prog, pre), 60)
         finally:
             env.close()
-    for p in range(nprog + nmd):
+    if ctx.quick:
+        sweep = sorted(set(list(range(0, 0x21)) + [0x22, 0x25, 0x26, 0x28, 0x29, 0x2a, 0x2f, 0x5b,
+                                                  0x5c, 0x5d, 0x7b, 0x7d, 0x7e, 0x7f, 0x80, 0xa0,
+                                                  0xc3, 0xe9, 0xfe, 0xff]))
+        sweeps = [sweep[:27], sweep[27:]]
+    else:
+        sweeps = [list(range(k, k + 32)) for k in range(0, 256, 32)]
+    for p in range(nprog + nmd + len(sweeps)):
         kind = 'dict' if p < nprog else rng.choice(['++', 'fs'])
         pre = gen_preauth(rng) if kind == 'dict' and rng.random() < 0.25 else None
         prog = gen_program(rng)
+        if p >= nprog + nmd:
+            kind, pre, prog = 'dict', None, sweep_program(sweeps[p - nprog - nmd])
         replay = {'backend': kind, 'preauth': [s.hex() for s in (pre or [])],
                   'program': [[w, d.hex()] for w, d in prog]}
         try:
